@@ -12,7 +12,7 @@ import (
 func init() {
 	Drivers["C13"] = driveC13
 	Levels["C13"] = "exploration"
-	Rules["C13"] = "one run = k=2..6 virtual goroutines x <=4 operations each over values built before they start: 1-3 shared Resolved (keyword-rich, multi-document, dynamic-scope and defaults worlds), the shared Schema trees, shared read-only instances and one shared ForOptions; operations Validate / ApplyDefaults(private instance, also struct holders) / Marshal / Unmarshal / CloneSchemas / Resolve(private simulated Loader) / ForType(shared options) / Equal; a seeded scheduler decides who runs at every operation boundary and plants pre-emptions inside operations (density 0/1/2), with memo-table miss injection and cold or warm caches; executed in a plain and in a -race build. Oracles: no race report with a jsonschema frame in both stacks; every result equals the result of the same operation run sequentially on an independently built identical world; a sequential re-run on the shared values after the join still matches. Non-trivial = >=1 pre-emption inside an operation AND two goroutines operate on the same shared value. Distinct = hash(world, operations) x goroutine-schedule hash."
+	Rules["C13"] = "one run = k=2..6 virtual goroutines x <=4 operations each over values built before they start: 1-3 shared Resolved (keyword-rich, multi-document, dynamic-scope and defaults worlds), the shared Schema trees, shared read-only instances and one shared ForOptions; operations Validate / ApplyDefaults(private instance, also struct holders) / Marshal / Unmarshal / CloneSchemas / Resolve(private simulated Loader) / ForType(shared options) / Equal; a seeded scheduler decides who runs at every operation boundary and plants pre-emptions inside operations (density 0-3; in a third of the runs all goroutines hammer one shared Resolved with Validate/ApplyDefaults under dense pre-emption), with memo-table miss injection and cold or warm caches; executed in a plain and in a -race build. Oracles: no race report with a jsonschema frame in both stacks; every result equals the result of the same operation run sequentially on an independently built identical world; a sequential re-run on the shared values after the join still matches. Non-trivial = >=1 pre-emption inside an operation AND two goroutines operate on the same shared value. Distinct = hash(world, operations) x goroutine-schedule hash."
 	Assumptions["C13"] = append([]string{
 		"the hand-off between virtual goroutines uses raw pipe system calls from //go:norace code, so the execution is serial and repeatable while the race detector still sees the library's accesses as concurrent; the detector is only as good as its shadow memory (4 cells per 8 bytes)",
 		"a race report is attributed to the library only if both stacks contain a frame of package jsonschema; any other report is a harness bug and makes the check exit 2",
@@ -212,10 +212,18 @@ func driveC13(c *Ctx) {
 	k := 2 + c.W(5)
 	ops := make([][]c13op, k)
 	touched := map[int]int{}
+	// Focus mode: every goroutine hammers ONE shared Resolved with Validate/ApplyDefaults,
+	// so that calls with different per-call state overlap.
+	focus := c.W(3) == 0
+	focusS := c.W(len(w.schemas))
 	for g := range ops {
 		n := 1 + c.W(4)
 		for i := 0; i < n; i++ {
 			op := c13op{Kind: []int{0, 0, 0, 1, 2, 3, 4, 5, 6, 6, 7, 8, 1}[c.W(13)], S: c.W(len(w.schemas)), I: c.W(8), J: c.W(8)}
+			if focus {
+				op.Kind = []int{0, 0, 0, 1, 8}[c.W(5)]
+				op.S = focusS
+			}
 			ops[g] = append(ops[g], op)
 			touched[op.S] |= 1 << g
 		}
@@ -227,7 +235,10 @@ func driveC13(c *Ctx) {
 	c.In("schemas %q", texts)
 	c.In("ops %v typeschemas=%v ignore=%v", ops, w.tsSpec, w.ignore)
 	c.Distinct("%q|%v|%v", texts, ops, w.tsSpec)
-	density := c.W(3)
+	density := c.W(4)
+	if focus && density < 2 {
+		density = 2 + c.W(2)
+	}
 	cold := c.W(2) == 0
 	miss := []int{0, 1, 2}[c.W(3)]
 	policy := simrt.Choose(simrt.SOrder, 0, simrt.NumOrderPolicies)
@@ -323,6 +334,9 @@ func driveC13(c *Ctx) {
 	c.Distinct("%x", st.SchedHash)
 	for _, s := range w.schemas {
 		c.Probe("world:" + s.Kind)
+	}
+	if focus {
+		c.Probe("focus-mode:" + w.schemas[focusS].Kind)
 	}
 	if st.CacheMissesInj > 0 {
 		c.Probe("memo-miss-injected")
